@@ -251,7 +251,7 @@ theorem walk_trees (g : Store) : ∀ (ts : List PTree) (fuel : Nat) (P : Dict) (
     refine ⟨h2.err, ?_, ?_⟩
     · show (walkKids (visit g fuel) (kidRefs ts) P (t.ids.reverse ++ vis)).visited = _
       rw [h2.visited]; simp [idsL]
-    · show List.map rawKey ((visit g fuel (Elem.atom (Atom.ref t.id)) P vis).pages ++
+    · show List.map rawKey ((visit g fuel (Val.atom (Atom.ref t.id)) P vis).pages ++
           (walkKids (visit g fuel) (kidRefs ts) P (t.ids.reverse ++ vis)).pages) = _
       rw [List.map_append, h1.pages, h2.pages]; simp [specLeavesL]
 end
@@ -290,7 +290,7 @@ def keyPage (g : Store) (key : Option Nat × List (Option Val)) : Except Err Pag
   .ok (mkPage g key.1 (look "Resources") (look "MediaBox") (look "CropBox") (look "Rotate"))
 
 theorem pageOfRaw_eq (g : Store) (rp : RawPage) : pageOfRaw g rp = keyPage g (rawKey rp) := by
-  unfold pageOfRaw keyPage rawKey
+  unfold pageOfRaw keyPage rawKey KEY_RESOURCES KEY_MEDIABOX KEY_CROPBOX KEY_ROTATE
   simp only [lookup_zip_map (dget rp.attrs) "Resources" INHERITABLE_ATTRS (by decide),
     lookup_zip_map (dget rp.attrs) "MediaBox" INHERITABLE_ATTRS (by decide),
     lookup_zip_map (dget rp.attrs) "CropBox" INHERITABLE_ATTRS (by decide),
@@ -367,6 +367,7 @@ theorem toTree_embeds (g : Store) : ∀ fuel a t, toTree g fuel a = some t → E
     intro a t h
     cases a with
     | dict kvs => simp [toTree] at h
+    | arr xs => simp [toTree] at h
     | atom a =>
     cases a with
     | ref n =>
